@@ -131,22 +131,45 @@ def brentq_contract(fam, lanes=2):
     hyps = dom + domth(TH.t)
     oks = [p for p in paths if p.status == 'ok']
     excs = [p for p in paths if p.status != 'ok']
+    TINY = float(np.finfo(float).tiny)
     for p in excs:
         if isinstance(p.exc, ValueError) and 'different signs' in str(p.exc):
-            continue   # bracket validity at the lower end is outside the quick claim (see evidence)
+            # feasible only if the bracket has no sign change: decided per bracket below
+            calls = [e for e in p.ctx.log if e[0] == 'brentq']
+            a = float(calls[-1][2]) if calls else None
+            if a == float(EPSILON):
+                # reached after the code's own test f(EPSILON) < 0: needs f(1) < 0, refuted by the f(1) >= 0 obligation
+                _, f, a_, b_, fa, fb, probe, ft = calls[-1]
+                from symx.core import check_valid
+                st, _m, secs = check_valid(list(p.ctx.pc[:-1]), tz(fa) < 0, timeout_ms=20000)
+                if st == 'unsat':
+                    r = prove(hyps, tz(fb) >= 0, timeout_ms=30000)
+                    st, secs = r['status'], secs + r['secs']
+                res.append(('bracket [EPSILON,1] is only used with a sign change (f(EPSILON) < 0 tested by the code, f(1) >= 0)', st, None, secs))
+            # bracket [tiny, 1]: f(tiny) <= 0 is a quantitative bound (y >= 1e-4), see the lower-end obligation
+            continue
         res.append((f'percent_point raises {type(p.exc).__name__}: {str(p.exc)[:80]}', 'sat', None, 0.0))
     if not oks:
         res.append(('no path returns', 'sat', None, 0.0))
         return res
     from .cop import single
-    for p in oks[:4]:
+    weak = sorted({e[1] for p in paths for e in p.ctx.log if e[0] == 'brentq-weakened'})
+    res.append(('brentq is called with scipy\'s default tolerances, iteration budget and convergence check'
+                + (f' (found: {weak})' if weak else ''), 'sat' if weak else 'unsat', None, 0.0))
+    seen_br = set()
+    for p in oks:
         calls = [e for e in p.value['log'] if e[0] == 'brentq']
         if len(calls) != lanes or len(p.value['r']) != lanes:
             res.append(('one brentq call and one result per lane', 'sat', None, 0.0))
             continue
         for i, (_, f, a, b, fa, fb, probe, ft) in enumerate(calls):
-            okb = float(a) == float(EPSILON) and float(b) == 1.0
-            res.append((f'lane {i}: bracket is [EPSILON, 1]', 'unsat' if okb else 'sat', None, 0.0))
+            lo = float(a)
+            okb = lo in (float(EPSILON), TINY) and float(b) == 1.0
+            res.append((f'lane {i}: bracket is [EPSILON, 1] or, when f(EPSILON) >= 0, [tiny, 1]', 'unsat' if okb else 'sat', None, 0.0))
+            key = (i, lo)
+            if key in seen_br:
+                continue
+            seen_br.add(key)
             s_ = probe.t
             h, _ = single(fam, 'partial_derivative', SymReal(s_), vs[i], hyps + [s_ > 0, s_ <= 1])
             same = z3.simplify(tz(ft) == tz(h) - ys[i].t)
@@ -155,13 +178,13 @@ def brentq_contract(fam, lanes=2):
             else:
                 r = prove(hyps + [s_ > 0, s_ <= 1], tz(ft) == tz(h) - ys[i].t, timeout_ms=30000)
                 st = r['status']
-            res.append((f'lane {i}: brentq solves h(u, v_{i}) - y_{i} = 0', st, None, 0.0))
+            res.append((f'lane {i} (lower end {lo:.3g}): brentq solves h(u, v_{i}) - y_{i} = 0', st, None, 0.0))
             # upper end sign: f(1) = 1 - y_i >= 0
             r = prove(hyps, tz(fb) >= 0, timeout_ms=30000)
-            res.append((f'lane {i}: f(1) >= 0', r['status'], r.get('model'), r['secs']))
+            res.append((f'lane {i} (lower end {lo:.3g}): f(1) >= 0', r['status'], r.get('model'), r['secs']))
             root = p.value['r'][i]
-            okr = isinstance(root, SymReal) and str(root.t) == f'root{i + 1}' or (isinstance(root, SymReal) and root.t.decl().name().startswith('root'))
-            res.append((f'lane {i}: result is the root of that lane', 'unsat' if okr else 'sat', None, 0.0))
+            okr = isinstance(root, SymReal) and root.t.decl().name() == f'root{i + 1}'  # stub numbers its calls per path
+            res.append((f'lane {i} (lower end {lo:.3g}): result is the root of that lane', 'unsat' if okr else 'sat', None, 0.0))
     return res
 
 
@@ -173,6 +196,56 @@ def shortcut(fam):
     return [('theta==1: ppf(y,v)=y', 'unsat' if ok else 'sat', None, 0.0)]
 
 
+def indep():
+    """Independence: percent_point(y, v) = y, partial_derivative(u, v) = u (= dC/dv of C = u v), no parameter."""
+    from copulas.bivariate.independence import Independence
+    res = []
+    y, v, ya, va = z3.Real('y'), z3.Real('v'), z3.Real('ya'), z3.Real('va')
+    dom = [y > 0, y < 1, v > 0, v < 1, ya > 0, ya < 1, va > 0, va < 1]
+
+    def fn(ctx):
+        ctx.assume(*dom)
+        c = Independence()
+        c.fit(np.array([[0.1, 0.2], [0.4, 0.3]]))      # fit() is a no-op for this family
+        r = c.percent_point(objarr([SymReal(y), SymReal(ya)]), objarr([SymReal(v), SymReal(va)]))
+        r = list(np.asarray(r, dtype=object).flat)
+        h = c.partial_derivative(objarr([[r[0], SymReal(v)], [r[1], SymReal(va)]]))
+        cd = c.cumulative_distribution(objarr([[SymReal(y), SymReal(v)]]))
+        return {'r': r, 'h': list(np.asarray(h, dtype=object).flat), 'cdf': list(np.asarray(cd, dtype=object).flat)}
+    with patches():
+        paths, ex, _ = explore(fn, max_paths=16)
+    if len(paths) != 1 or paths[0].status != 'ok':
+        return [('percent_point/partial_derivative return on a fitted Independence copula: ' +
+                 str([(p.status, repr(p.exc)) for p in paths])[:160], 'sat', None, 0.0)]
+    val = paths[0].value
+    from symx.core import check_valid
+    from symx.diff import diff
+    goals = [('0<=ppf<=1', z3.And(tz(val['r'][0]) >= 0, tz(val['r'][0]) <= 1)),
+             ('h(ppf(y,v),v)=y', z3.And(tz(val['h'][0]) == y, tz(val['h'][1]) == ya)),
+             ('lane i depends only on (y_i, v_i)', z3.And(tz(val['r'][0]) == y, tz(val['r'][1]) == ya)),
+             ('partial_derivative = dC/dv', tz(val['h'][0]) == z3.substitute(diff(tz(val['cdf'][0]), v), (y, tz(val['r'][0]))))]
+    for nm, g in goals:
+        st, m, secs = check_valid(dom, g, timeout_ms=20000)
+        res.append((nm, st, None, secs))
+    res.append(('ppf non-decreasing in y', 'unsat' if z3.is_true(z3.simplify(tz(val['r'][0]) == y)) else 'sat', None, 0.0))
+    return res
+
+
+def concrete_indep():
+    from copulas.bivariate.independence import Independence
+    c = Independence()
+    c.fit(np.array([[0.1, 0.2], [0.4, 0.3]]))
+    ys, vs = np.array([0.3, 1e-4, 1 - 1e-4, 0.5]), np.array([0.6, 0.2, 1e-4, 1 - 1e-4])
+    try:
+        u = np.asarray(c.percent_point(ys, vs), dtype=float)
+        hv = np.asarray(c.partial_derivative(np.column_stack((u, vs))), dtype=float)
+    except Exception as e:
+        return True, f'Independence: percent_point/partial_derivative raises {type(e).__name__}: {e}'
+    if u.shape != ys.shape or np.any(u < 0) or np.any(u > 1) or not np.allclose(hv, ys, atol=1e-9):
+        return True, f'Independence: y={ys.tolist()} v={vs.tolist()}: u={u.tolist()} h(u,v)={hv.tolist()}'
+    return False, ''
+
+
 def task(a):
     kind, fam = a
     t0 = time.time()
@@ -181,6 +254,8 @@ def task(a):
             r = closed_form(fam)
         elif kind == 'brentq':
             r = brentq_contract(fam)
+        elif kind == 'indep':
+            r = indep()
         else:
             r = shortcut(fam)
         return (kind, fam, r, time.time() - t0)
@@ -205,6 +280,10 @@ def concrete_ppf_violation(fam, theta, y, v):
 
 
 def replay(d):
+    if d.get('fam') == 'independence':
+        bad, detail = concrete_indep()
+        print(detail)
+        return bad
     if d.get('vector'):
         bad, detail = concrete_vector_violation(d['fam'], d['theta'], d['y'], d['v'])
     else:
@@ -213,6 +292,8 @@ def replay(d):
     return bad
 
 
+CORNERS = [(1e-4, 1e-4), (1e-4, 1 - 1e-4), (1 - 1e-4, 1e-4), (1 - 1e-4, 1 - 1e-4), (0.2, 1 - 1e-4), (1 - 1e-4, 0.995), (0.5, 1e-4),
+           (1e-4, 0.1), (0.5, 1e-3)]
 SMALL = {'clayton': [1e-3, 5e-3, 0.05], 'gumbel': [1.001, 1.02], 'frank+': [1e-3, 0.02], 'frank-': [-1e-3, -0.02], 'gumbel1': []}
 VECTORS = [([5e-4, .3, .7], [.2, .5, .8]), ([.3, 1 - 5e-4, .7], [.5, .2, .8]), ([.3, .7], [.5, .8]), ([.7, 2e-4], [.8, .05]),
            ([1e-4, 1 - 1e-4, .5, .25], [.9, .1, .5, .35])]
@@ -233,6 +314,9 @@ def concrete_vector_violation(fam, theta, ys, vs):
 
 
 def find_replay(fam, model=None):
+    if fam == 'independence':
+        bad, detail = concrete_indep()
+        return {'fam': fam, 'theta': None, 'y': None, 'v': None, 'detail': detail} if bad else None
     cands = []
     thetas = []
     if model and 'theta' in model:
@@ -240,7 +324,7 @@ def find_replay(fam, model=None):
         cands.append((model['theta'], model.get('y', model.get('y0', 0.5)), model.get('v', model.get('v0', 0.5))))
     thetas += GRID_THETAS[fam] + SMALL.get(fam, [])
     for th in thetas:
-        for (y, v) in [(0.3, 0.6), (0.9, 0.2), (0.05, 0.5), (0.5, 0.97), (0.5, 0.02), (1e-4, 0.3), (1 - 1e-4, 0.6)]:
+        for (y, v) in [(0.3, 0.6), (0.9, 0.2), (0.05, 0.5), (0.5, 0.97), (0.5, 0.02), (1e-4, 0.3), (1 - 1e-4, 0.6)] + CORNERS:
             cands.append((th, y, v))
     for (th, y, v) in cands:
         if not (0 < y < 1 and 0 < v < 1):
@@ -261,14 +345,18 @@ def run(tier, seed):
                'symbolic execution of the real percent_point (Clayton closed form; Frank/Gumbel with brentq as a contract stub) '
                '+ z3 on the traced terms')
     ck.encode(Clayton.percent_point, B.Bivariate.percent_point, B.Bivariate.partial_derivative_scalar,
-              Frank.percent_point, Gumbel.percent_point, Clayton.partial_derivative, Frank.partial_derivative, Gumbel.partial_derivative)
-    ck.stubs = ['scipy.optimize.brentq(f,a,b): f must return a scalar; needs a sign change; returns x in [a,b] with f(x)=0']
+              Frank.percent_point, Gumbel.percent_point, Clayton.partial_derivative, Frank.partial_derivative, Gumbel.partial_derivative,
+              MI.Independence.percent_point, MI.Independence.partial_derivative)
+    ck.stubs = ['scipy.optimize.brentq(f,a,b,...): f must return a scalar; needs a sign change; returns x in [a,b] with f(x)=0 when called with '
+                'the default xtol/rtol/maxiter and disp=True; a call that loosens them only gets x in [a,b] and is reported']
     ck.bounds = {'theta': 'Clayton theta>0, Gumbel theta>=1, Frank theta!=0 (reals)', 'y,v': 'open unit interval (reals)', 'lanes': 2}
     ck.outside = ['convergence/tolerance of brentq (scipy)',
-                  'lower-end bracket validity f(EPSILON) <= 0 for y >= 1e-4 (quantitative exp bound; not decided)',
+                  'sign of f at the lower end of the widened bracket [tiny, 1] (taken when f(EPSILON) >= 0): a quantitative bound on '
+                  'h(2.2e-308, v) for y, v >= 1e-4 that the axiom instances do not decide; covered by the float64 corner witnesses only',
                   'float64 rounding']
     ck.assumptions = ['brentq contract', 'exact real arithmetic', 'exp/log axioms are sound instances']
-    jobs = [('closed', 'clayton'), ('brentq', 'frank+'), ('brentq', 'frank-'), ('brentq', 'gumbel'), ('shortcut', 'gumbel1')]
+    jobs = [('closed', 'clayton'), ('brentq', 'frank+'), ('brentq', 'frank-'), ('brentq', 'gumbel'), ('shortcut', 'gumbel1'),
+            ('indep', 'independence')]
     for kind, fam, r, secs in pool_map(task, jobs):
         if kind == 'error':
             ck.inconcl(f'harness error for {fam}: {r}')
@@ -286,9 +374,9 @@ def run(tier, seed):
                 ck.inconcl(f'{nm}: solver said {st}, no replay reproduces')
     # conformance witnesses: the real code on a few points (surfaces exceptions in the unstubbed path)
     n = 0
-    for fam in ('clayton', 'frank+', 'frank-', 'gumbel', 'gumbel1'):
+    for fam in ('clayton', 'frank+', 'frank-', 'gumbel', 'gumbel1', 'independence'):
         rep = find_replay(fam, None)
-        n += (len(GRID_THETAS[fam]) + len(SMALL.get(fam, []))) * (7 + len(VECTORS))
+        n += (len(GRID_THETAS.get(fam, [0])) + len(SMALL.get(fam, []))) * (7 + len(CORNERS) + len(VECTORS))
         if rep is not None:
             ck.violation(f'{fam}:conformance', f'{fam}: real percent_point fails the definition: {rep["detail"]}', rep)
     ck.traces_validated = n
